@@ -4,9 +4,14 @@ from contracts.spec_cat import desc, closure, is_desc
 from kernpy.core.tokens import TokenCategory
 
 # cells covering every alternative of the kern grammar plus free text / garbage (bounded witness search and corpora)
-CELL_CORPUS = ['=1', '=', '==', '=:|!', '.', '*', '*clefG2', '*clefF4', '*k[f#]', '*M4/4', '*met(c)', '*C:', '4c', '4.cc#', '2r',
-               '4c 4e', '8ddL', '16ee-J', '!comment', '*staff1', '*xywh:1,2,3,4', '*I"Violin', '*^', '*-', '*v', 'Hello', 'f', 'pp',
-               'C7', 'xyz', '4zz', 'ño', 'la-', '1', '3 4', '*part1', '*>A', '*tb8']
+CELL_CORPUS = ['=1', '=', '==', '=:|!', '=-', '=1-', '=2||', '.', '*', '4c', '4.cc#', '2r', '4c 4e', '8ddL', '16ee-J', '!comment', '!', 'Hello', 'f', 'pp',
+               'C7', 'xyz', '4zz', 'ño', 'la-', '1', '3 4', 'a@b', 'col·lec',
+               # every tandem / structural literal of kern/kernSpineLexer.g4
+               '*kcancel', '*part1', '*group1', '*accomp', '*solo', '*strophe', '*staff1', '*staff2', '*Trd1c2', '*ITrd1c2', '*clefG2', '*clefF4',
+               '*clefGv2', '*k[f#]', '*k[]', '*k[b-e-]', '*met(c)', '*met(c|)', '*MM120', '*>A', '*>[A,B]', '*lh', '*rh', '*above', '*below', '*below:2',
+               '*centered', '*ped', '*ped*', '*ela', '*Xped', '*tuplet', '*Xtuplet', '*cue', '*Xcue', '*tremolo', '*Xtremolo', '*tstart', '*tend',
+               '*rscale:2', '*M4/4', '*M3/8', '*S/sic', '*S/ossia', '*S/fin', '*S-', '*tb8', '*xywh-1:1,2,3,4', '*8va', '*X8va', '*8ba', '*I"Violin',
+               '*Ipiano', '*mI"Title', '*C:', '*a:', '*F#:', '*^', '*v', '*-', '*+', '*x']
 
 STRUCTURAL_PARENTS = [TokenCategory.STRUCTURAL, TokenCategory.SIGNATURES, TokenCategory.EMPTY, TokenCategory.IMAGE_ANNOTATIONS,
                       TokenCategory.BARLINES, TokenCategory.COMMENTS]
